@@ -281,14 +281,26 @@ pub fn check_common(l: &mut Local, a: &[u8], b: &[u8], tag: &str) {
             let x = t.block_hash_1().has_common_substring(b);
             let c_eq = t.is_comparison_candidate(&hb);
             let c_gt = t.is_comparison_candidate(&hb_lt);
-            let c_lt = FuzzyHashCompareTarget::from(&hb_lt).is_comparison_candidate(&ha);
-            (x, c_eq, c_gt, c_lt)
+            let t_lt = FuzzyHashCompareTarget::from(&hb_lt);
+            let c_lt = t_lt.is_comparison_candidate(&ha);
+            // the relation-specific entry points, inside their preconditions
+            let d_eq = t.is_comparison_candidate_near_eq(&hb);
+            let d_gt = t.is_comparison_candidate_near_gt(&hb_lt);
+            let d_lt = t_lt.is_comparison_candidate_near_lt(&ha);
+            #[cfg(feature = "ffunchecked")]
+            let du = unsafe { (t.is_comparison_candidate_near_eq_unchecked(&hb), t.is_comparison_candidate_near_gt_unchecked(&hb_lt), t_lt.is_comparison_candidate_near_lt_unchecked(&ha)) };
+            #[cfg(not(feature = "ffunchecked"))]
+            let du = (d_eq, d_gt, d_lt);
+            (x, c_eq, c_gt, c_lt, (d_eq, d_gt, d_lt), du)
         });
-        l.eval(4);
+        l.eval(10);
         match r {
-            Ok((x, c_eq, c_gt, c_lt)) => {
+            Ok((x, c_eq, c_gt, c_lt, d, du)) => {
                 l.check(x == want && c_eq == want && c_gt == want && c_lt == want, "is_comparison_candidate", || {
                     (sig("target"), format!("target answers (accessor {}, near-eq {}, near-gt {}, near-lt {}) but a shared 7-gram of {} and {} {}", x, c_eq, c_gt, c_lt, hex(a), hex(b), if want { "exists" } else { "does not exist" }))
+                });
+                l.check(d == (want, want, want) && du == (want, want, want), "is_comparison_candidate_near_*", || {
+                    (sig("target-near"), format!("relation-specific candidate tests answer (near_eq, near_gt, near_lt) = {:?}, unchecked twins {:?}, but a shared 7-gram of {} and {} {}", d, du, hex(a), hex(b), if want { "exists" } else { "does not exist" }))
                 });
             }
             Err(p) => l.violation("totality", sig("target-panic"), format!("target candidate test panicked: {}", p)),
